@@ -222,3 +222,77 @@ pub fn run_table(line: &str) -> String {
         if filt.is_empty() { "-".to_string() } else { filt }
     )
 }
+
+/// Suite `tfile`: the byte layout of a table file below the block contents (block trailers,
+/// handles, footer) and the reader's reaction to single-byte changes.
+/// case: <id> <max_block_size> <nmut> <lcg seed> E<entry> ...
+/// output: <id> x<file bytes> <m_off>:<m_size>,<i_off>:<i_size> <off:size;...> then per mutation
+///   <offset>:<new byte>:<open ok 0/1>:<one bit per original data block: readable>
+pub fn run_tfile(line: &str) -> String {
+    let toks = split_nonempty(line, ' ');
+    let bs: usize = toks[1].split(':').next().unwrap().parse().unwrap();
+    let nmut: usize = toks[2].parse().unwrap();
+    let mut lcg: u64 = toks[3].parse().unwrap();
+    let entries: Vec<vt::Entry> = toks[4..].iter().filter(|t| t.as_bytes()[0] == b'E').map(|t| parse_entry(&t[1..])).collect();
+    let sim = SimFs::new();
+    let opts = sim_options(&sim, bs);
+    let fs: Arc<dyn FileSystem> = opts.filesystem_provider();
+    fs.create_dir_all(&PathBuf::from("db/data")).unwrap();
+    let o2 = opts.clone();
+    let es2 = entries.clone();
+    match catch(move || vt::build_table(o2, 7, &es2)) {
+        None => return format!("{} build-panic", toks[0]),
+        Some(Err(e)) => return format!("{} build-error:{}", toks[0], e.replace(' ', "_")),
+        Some(Ok(_)) => {}
+    }
+    let path = sim
+        .all_files()
+        .into_iter()
+        .map(|(p, _)| p)
+        .find(|p| p.to_string_lossy().ends_with(".rdb"))
+        .expect("table file");
+    let original = sim.read_whole(&path).unwrap();
+    let table = match vt::VTable::open(opts.clone(), &path) {
+        Ok(t) => t,
+        Err(e) => return format!("{} open-error:{}", toks[0], e.replace(' ', "_")),
+    };
+    let (m, i, blocks) = table.handles();
+    drop(table);
+    let mut out: Vec<String> = vec![];
+    let len = original.len();
+    for k in 0..nmut {
+        lcg = (lcg * 1103515245 + 12345) & 0x7fff_ffff;
+        // spread the offsets; the last ones go into the footer
+        let off = if k % 5 == 4 { len - 1 - ((lcg >> 8) as usize % 48.min(len)) } else { (lcg >> 4) as usize % len };
+        lcg = (lcg * 1103515245 + 12345) & 0x7fff_ffff;
+        let old = original[off];
+        let newb = match k % 3 {
+            0 => old ^ (1 << ((lcg >> 8) & 7)),
+            1 => ((lcg >> 16) & 255) as u8,
+            _ => if old == 0 { 0xff } else { 0 },
+        };
+        if newb == old {
+            continue;
+        }
+        let mut data = original.clone();
+        data[off] = newb;
+        sim.overwrite(&path, &data);
+        let res = match vt::VTable::open(sim_options(&sim, bs), &path) {
+            Err(_) => "0:-".to_string(),
+            Ok(t) => {
+                let bits: String = blocks.iter().map(|(o, s)| if t.block_readable(*o, *s) { '1' } else { '0' }).collect();
+                format!("1:{}", if bits.is_empty() { "-".to_string() } else { bits })
+            }
+        };
+        out.push(format!("{}:{}:{}", off, newb, res));
+    }
+    sim.overwrite(&path, &original);
+    format!(
+        "{} x{} {}:{},{}:{} {} {}",
+        toks[0],
+        hex(&original),
+        m.0, m.1, i.0, i.1,
+        if blocks.is_empty() { "-".to_string() } else { blocks.iter().map(|(o, s)| format!("{}:{}", o, s)).collect::<Vec<_>>().join(";") },
+        if out.is_empty() { "-".to_string() } else { out.join(" ") }
+    )
+}
